@@ -176,7 +176,8 @@ class Interp:
         return round(self.rig.now * 1000, 3)
 
     def _log(self, *entry):
-        self.log.append(list(entry))
+        if not getattr(self, "ended", False):
+            self.log.append(list(entry))
 
     # -- handlers
     def _strip(self, kwargs):
@@ -507,7 +508,8 @@ class Interp:
         for _ in range(6):
             self.rig.advance(0)     # an event posted by a timer at this very instant is dispatched in the next loop iterations
         self._log("END")
-        return self.log
+        self.ended = True       # whatever still runs while the machine is shut down is not part of the history
+        return list(self.log)
 
 
 # --------------------------------------------------------------------------------------------------
